@@ -21,7 +21,7 @@ COMPONENTS = {
 }
 ASSUMPTIONS = {'C15': ['pipelines without parallel edges and without cycles; slice (self-detaching) and loop-requiring nodes are not edit targets',
                        'a dropped reference is followed by gc.collect() (the instrumentation wrappers form reference cycles)',
-                       'combine_latest is edited without an explicit emit_on']}
+                       'an explicit emit_on of combine_latest names one input (stream, index or one-element list)']}
 RULE = {'C15': 'histories of emit / connect / disconnect / destroy / drop-reference+gc / add-sink operations over synchronous '
                'pipelines (map, filter, accumulate, union, zip, combine_latest, sliding_window, unique, sinks). Non-trivial = at '
                'least one topology edit followed by an emission; distinct = distinct schedule signatures'}
@@ -41,6 +41,11 @@ def _alive(model_nodes, refs, sinks_live):
             continue
         alive.add(n)
         todo.extend(model_nodes[n]['ups'])
+        # (a combine_latest built with an explicit emit_on keeps referring to those streams - also after they
+        # stopped being its inputs; a later re-connect makes them triggers again)
+        sp = model_nodes[n].get('spec') or {}
+        if sp.get('op') == 'combine_latest' and sp.get('emit_on') is not None:
+            todo.extend(sp['up'][i] for i in sp['emit_on'])
     return alive
 
 
@@ -280,15 +285,16 @@ def judge(sc, rec, ctx, snapshots, online, M):
                         if m['op'] == 'zip':
                             from collections import deque
                             model.buf[e[1]] = deque()
-                        else:
-                            model.emit_on = model.ups
+                        elif m['spec'].get('emit_on') is None:
+                            model.emit_on = model.ups      # (an explicit emit_on stays what it was)
                     elif e[0] == 'remove':
                         model.ups.remove(e[1])
                         if m['op'] == 'zip':
                             model.buf.pop(e[1], None)
                         else:
                             model.last.pop(e[1], None)
-                            model.emit_on = model.ups
+                            if m['spec'].get('emit_on') is None:
+                                model.emit_on = model.ups
                 continue
             i = it
             if i.parent not in model.ups:
@@ -376,6 +382,11 @@ def generate(prop, rng, seed, index, tier):
             n = {'op': op, 'up': ups}
             if op == 'zip' and rng.random() < 0.3:
                 n['maxsize'] = 100
+            if op == 'combine_latest' and rng.random() < 0.35:
+                # an explicit emit_on (given as a stream, as an index - 0 included - or as a list) survives graph edits
+                n['emit_on'] = [rng.randrange(len(ups))]
+                n['emit_on_index'] = rng.random() < 0.6
+                n['emit_on_scalar'] = rng.random() < 0.6
             add(n)
         elif op == 'map':
             add({'op': 'map', 'up': [rng.choice(cands)], 'fn': ['tag', rng.randrange(1, 9)]})
